@@ -122,9 +122,6 @@ Proof. exact lock_free. Qed.
 Print Assumptions C12_no_exception_no_lock_held.
 
 (* ---------------- non-vacuity ---------------- *)
-Lemma run_reach M MAXC ls s : run M MAXC init ls = Some s -> reachable M MAXC s.
-Proof. apply run_reachable. apply reach_init. Qed.
-
 (* (1)(2): M = 1, two clients on key 0: the first holds connection 0, the second is parked; the first
    leaves, its release task runs and notifies, the second gets the SAME connection (reuse); a third
    client on key 1 holds a different one. *)
@@ -172,9 +169,9 @@ Proof.
   destruct (run 1 100 init demo_quiet) as [s|] eqn:E; [|vm_compute in E; discriminate].
   exists s. pose proof (run_reach _ _ _ _ E) as R. vm_compute in E. injection E as <-.
   split; [exact R|]. split.
-  { intros c. cbn. unfold upd. repeat (match goal with |- context [Nat.eqb ?a ?b] => destruct (Nat.eqb a b) end); auto. }
+  { intros c. destruct c as [|[|[|[|c]]]]; cbn; auto. }
   split.
-  { intros r. cbn. unfold upd. repeat (match goal with |- context [Nat.eqb ?a ?b] => destruct (Nat.eqb a b) end); auto. }
+  { intros r. destruct r as [|[|[|[|r]]]]; cbn; auto. }
   split; [reflexivity|]. split; [eexists; split; reflexivity|reflexivity].
 Qed.
 
@@ -183,18 +180,12 @@ Example C12_nonvacuous_quiescent_no_cancel :
             (forall r, rtasks s r = R_none \/ rtasks s r = R_done) /\
             (exists hp, aget (pools s) 0 = Some hp /\ ready hp = [0]).
 Proof.
-  assert (R : forall ls s, forallb (fun l => negb (is_cancel l)) ls = true -> forall s0, reachable_nc 1 100 s0 ->
-              run 1 100 s0 ls = Some s -> reachable_nc 1 100 s).
-  { induction ls as [|l ls IH]; cbn; intros s _F s0 R0.
-    - intros [= <-]. assumption.
-    - apply andb_prop in _F. destruct _F as [F1 F2]. destruct (step 1 100 s0 l) as [s1|] eqn:E; [|discriminate].
-      apply IH; [assumption|]. eapply reachnc_step; eauto. now destruct (is_cancel l). }
   destruct (run 1 100 init [LStart 0 0 [] 0; LConnOK 0; LFinish 0 false; LStep (TR 0) [] 0]) as [s|] eqn:E;
     [|vm_compute in E; discriminate].
-  exists s. split; [eapply R; [|apply reachnc_init|exact E]; reflexivity|]. vm_compute in E. injection E as <-.
+  exists s. split; [eapply run_reachable_nc; [|apply reachnc_init|exact E]; reflexivity|]. vm_compute in E. injection E as <-.
   split.
-  { intros c. cbn. unfold upd. repeat (match goal with |- context [Nat.eqb ?a ?b] => destruct (Nat.eqb a b) end); auto. }
+  { intros c. destruct c as [|[|[|[|c]]]]; cbn; auto. }
   split.
-  { intros r. cbn. unfold upd. repeat (match goal with |- context [Nat.eqb ?a ?b] => destruct (Nat.eqb a b) end); auto. }
+  { intros r. destruct r as [|[|[|[|r]]]]; cbn; auto. }
   eexists; split; reflexivity.
 Qed.
